@@ -93,37 +93,37 @@ def St.etag (s : St) (n : String) : Option String := s.files[n]?
 
 /-! ### UID cache (`_scan_uids`) -/
 
-/-- body of the first loop of `_scan_uids` for one listed blob. -/
+/-- `_forget_uid(name, uid)`: drop the mapping of `uid` if it still points at `name`. -/
+def forget (u2f : Map (String × String)) (name : String) (ou : Option String) :
+    Map (String × String) :=
+  match ou with
+  | some u =>
+    (match u2f[u]? with
+     | some (n', _) => if n' = name then u2f.erase u else u2f
+     | none => u2f)
+  | none => u2f
+
+/-- `if uid is not None: self._uid_to_fname[uid] = (name, etag)` -/
+def remember (u2f : Map (String × String)) (name etag : String) (uid : Option String) :
+    Map (String × String) :=
+  match uid with
+  | some u => u2f.insert u (name, etag)
+  | none => u2f
+
+/-- body of the first loop of `_scan_uids` for one listed blob: skip it if the cached etag is
+    current; otherwise forget the UID the name used to hold, read the new UID, record both. -/
 def scanStep (env : Env) (c : Cache) (p : String × String) : Cache :=
-  let (name, etag) := p
-  match c.f2u[name]? with
-  | some (e', ou) =>
-    if e' = etag then c
-    else
-      -- the blob under this name changed: forget the UID it used to hold
-      let u2f₁ := match ou with
-        | some u => (match c.u2f[u]? with
-            | some (n', _) => if n' = name then c.u2f.erase u else c.u2f
-            | none => c.u2f)
-        | none => c.u2f
-      let uid := env.uid (hkOfName name) etag
-      { f2u := c.f2u.insert name (etag, uid)
-        u2f := match uid with | some u => u2f₁.insert u (name, etag) | none => u2f₁ }
-  | none =>
-    let uid := env.uid (hkOfName name) etag
-    { f2u := c.f2u.insert name (etag, uid)
-      u2f := match uid with | some u => c.u2f.insert u (name, etag) | none => c.u2f }
+  let old := c.f2u[p.1]?
+  if old.map (·.1) = some p.2 then c
+  else
+    let uid := env.uid (hkOfName p.1) p.2
+    { f2u := c.f2u.insert p.1 (p.2, uid)
+      u2f := remember (forget c.u2f p.1 (old.bind (·.2))) p.1 p.2 uid }
 
 /-- body of the second loop of `_scan_uids` for one vanished name. -/
 def dropStep (c : Cache) (name : String) : Cache :=
   match c.f2u[name]? with
-  | some (_, ou) =>
-    let u2f₁ := match ou with
-      | some u => (match c.u2f[u]? with
-          | some (n', _) => if n' = name then c.u2f.erase u else c.u2f
-          | none => c.u2f)
-      | none => c.u2f
-    { f2u := c.f2u.erase name, u2f := u2f₁ }
+  | some (_, ou) => { f2u := c.f2u.erase name, u2f := forget c.u2f name ou }
   | none => c
 
 def scanUids (env : Env) (blobs : List (String × String)) (c : Cache) : Cache :=
@@ -190,25 +190,26 @@ def checkDuplicate (env : Env) (s : St) (uid : Option String) (name : String)
 def addObj (objs : List (Map String)) (t : Map String) : List (Map String) :=
   if objs.contains t then objs else objs ++ [t]
 
+/-- `do_commit(tree=…)`: write the tree object and append one commit whose tree it is. -/
+def commit (s : St) (files' : Map String) : St :=
+  { s with files := files', objs := addObj s.objs files', commits := s.commits ++ [files'] }
+
+/-- `if tree.id != old_tree_id` (bare) / `if name not in index or blob.id != index[name].sha`
+    (tree): commit only when the stored tree really changes. -/
+def commitIfChanged (s : St) (files' : Map String) : St :=
+  if files' = s.files then s else commit s files'
+
 /-- `_import_one` for each store kind: `content` is the token of the normalised bytes. -/
 def writeOne (s : St) (name content : String) : St × Out :=
   match s.kind with
-  | .bare =>
-    let files' := s.files.insert name content
-    let s' := { s with files := files', objs := addObj s.objs files' }
-    if files' ≠ s.files then ({ s' with commits := s.commits ++ [files'] }, .ok content)
-    else (s', .ok content)
+  | .bare => (commitIfChanged s (s.files.insert name content), .ok content)
   | .tree =>
     if s.locked then (s, .locked)
     else
-      let wt := s.worktree.insert name content
-      if s.files[name]? ≠ some content then
-        let files' := s.files.insert name content
-        ({ s with worktree := wt, files := files', objs := addObj s.objs files'
-                  commits := s.commits ++ [files'] }, .ok content)
-      else ({ s with worktree := wt }, .ok content)
-  | .vdir =>
-    ({ s with files := s.files.insert name content }, .ok content)
+      -- the working-tree file is (re)written first, then index + commit if the blob differs
+      (commitIfChanged { s with worktree := s.worktree.insert name content }
+        (s.files.insert name content), .ok content)
+  | .vdir => ({ s with files := s.files.insert name content }, .ok content)
 
 /-- git stores build the commit message from the previous version, opened with the *new*
     handler (`get_file(name, content_type, replace_etag)` + `describe_delta`); an unparseable
@@ -238,32 +239,22 @@ def importOne (env : Env) (s : St) (name : String) (ct : Option String) (tok : S
 
 /-- `delete_one(name, etag=…)` with no explicit commit message. -/
 def deleteOne (s : St) (name : String) (etag : Option String) : St × Out :=
-  match s.kind with
-  | .bare =>
-    match s.files[name]? with
-    | none => (s, .noSuchItem)
-    | some cur =>
-      if etag.isSome && etag ≠ some cur then (s, .badEtag)
-      else
-        let files' := s.files.erase name
-        ({ s with files := files', objs := addObj s.objs files'
-                  commits := s.commits ++ [files'] }, .deleted)
-  | .tree =>
-    match s.worktree[name]? with
-    | none => (s, .noSuchItem)
-    | some cur =>
-      if etag.isSome && etag ≠ some cur then (s, .badEtag)
-      else if s.locked then (s, .locked)
-      else
-        let files' := s.files.erase name
-        ({ s with worktree := s.worktree.erase name, files := files'
-                  objs := addObj s.objs files', commits := s.commits ++ [files'] }, .deleted)
-  | .vdir =>
-    match s.files[name]? with
-    | none => (s, .noSuchItem)
-    | some cur =>
-      if etag.isSome && etag ≠ some cur then (s, .badEtag)
-      else ({ s with files := s.files.erase name }, .deleted)
+  -- bare git looks the name up in the tree, the tree store reads the working-tree file,
+  -- vdir stats the file
+  let cur := match s.kind with
+    | .tree => s.worktree[name]?
+    | _ => s.files[name]?
+  match cur with
+  | none => (s, .noSuchItem)
+  | some c =>
+    if etag.isSome && etag ≠ some c then (s, .badEtag)
+    else
+      match s.kind with
+      | .bare => (commit s (s.files.erase name), .deleted)
+      | .tree =>
+        if s.locked then (s, .locked)
+        else (commit { s with worktree := s.worktree.erase name } (s.files.erase name), .deleted)
+      | .vdir => ({ s with files := s.files.erase name }, .deleted)
 
 /-! ### Reads -/
 
